@@ -128,6 +128,55 @@ def r07_1(ctx: Ctx):
     return obs
 
 
+def _string_pieces(v, defs, depth=0):
+    """A string-valued expression as a sequence of ('lit', text) / ('expr', node) pieces: f-strings, `+` concatenation,
+    str(x), 'sep'.join([..]), '{}..{}'.format(..).  None if the form is not understood."""
+    if depth > 6:
+        return None
+    v = _resolve(v, defs)
+    if isinstance(v, ast.Constant) and isinstance(v.value, str):
+        return [("lit", v.value)]
+    if isinstance(v, ast.JoinedStr):
+        out = []
+        for x in v.values:
+            if isinstance(x, ast.Constant):
+                out.append(("lit", str(x.value)))
+            elif isinstance(x, ast.FormattedValue) and x.format_spec is None and x.conversion in (-1, 115):
+                out.append(("expr", x.value))
+            else:
+                return None
+        return out
+    if isinstance(v, ast.Call) and norm(v.func) == "str" and len(v.args) == 1 and not v.keywords:
+        return [("expr", v.args[0])]
+    if isinstance(v, ast.BinOp) and isinstance(v.op, ast.Add):
+        a, b = _string_pieces(v.left, defs, depth + 1), _string_pieces(v.right, defs, depth + 1)
+        return None if a is None or b is None else a + b
+    if isinstance(v, ast.Call) and isinstance(v.func, ast.Attribute) and v.func.attr == "join" and isinstance(v.func.value, ast.Constant) and isinstance(v.func.value.value, str) and len(v.args) == 1 and isinstance(v.args[0], (ast.List, ast.Tuple)):
+        out = []
+        for k, el in enumerate(v.args[0].elts):
+            p_ = _string_pieces(el, defs, depth + 1)
+            if p_ is None:
+                return None
+            if k:
+                out.append(("lit", v.func.value.value))
+            out += p_
+        return out
+    if isinstance(v, ast.Call) and isinstance(v.func, ast.Attribute) and v.func.attr == "format" and isinstance(v.func.value, ast.Constant) and isinstance(v.func.value.value, str) and not v.keywords:
+        chunks = v.func.value.value.split("{}")
+        if len(chunks) != len(v.args) + 1 or any("{" in c or "}" in c for c in chunks):
+            return None
+        out = []
+        for k, c in enumerate(chunks):
+            if c:
+                out.append(("lit", c))
+            if k < len(v.args):
+                out.append(("expr", v.args[k]))
+        return out
+    if isinstance(v, (ast.Attribute, ast.Name)):
+        return [("expr", v)]
+    return None
+
+
 def r07_2(ctx: Ctx):
     """R07.2 ids: suffix = size of the target level, an append separates two computations, non-root ids are prefixed by the parent's id."""
     f = ctx.prog.own_method("DemeTree", "_next_child_id")
@@ -149,29 +198,35 @@ def r07_2(ctx: Ctx):
             rets.append(r)
     suffix_ok = True
     root_branch = prefixed = False
+    unknown_shape = False
+    want_sfx = (f"len({selfn}._levels[{d}.level+1])", f"len({selfn}.levels[{d}.level+1])")
     for r in rets:
         v = r.value
-        names = {x.id for x in ast.walk(v) if isinstance(x, ast.Name)}
-        parts = []
-        if isinstance(v, ast.JoinedStr):
-            parts = [norm(x.value) for x in v.values if isinstance(x, ast.FormattedValue)]
-            lits = "".join(x.value for x in v.values if isinstance(x, ast.Constant))
-            if parts and parts[0] == f"{d}.id" and "/" in lits and len(parts) == 2:
-                prefixed = True
-                sfx = _resolve(ast.parse(parts[1], mode="eval").body, defs)
-            else:
-                sfx = None
-        elif isinstance(v, ast.Call) and norm(v.func) == "str" and v.args:
-            root_branch = True
-            sfx = _resolve(v.args[0], defs)
-        else:
-            sfx = None
-        if sfx is None or norm(sfx).replace(" ", "") not in (f"len({selfn}._levels[{d}.level+1])", f"len({selfn}.levels[{d}.level+1])"):
+        pieces = _string_pieces(v, defs)
+        if pieces is None:
+            unknown_shape = True
             suffix_ok = False
-            obs.append(ctx.ob("R07.2", f, r, status=VIOLATION, detail=f"child id `{norm(v)}` is not built from the size of the target level (ids on a level could repeat)"))
+            obs.append(ctx.ob("R07.2", f, r, status=INCONCLUSIVE, detail=f"cannot take the child id `{norm(v)[:80]}` apart into prefix and suffix"))
+            continue
+        exprs = [x for k, x in pieces if k == "expr"]
+        lits = "".join(x for k, x in pieces if k == "lit")
+        sfx = None
+        if len(exprs) == 2 and canon(exprs[0], defs) == f"{d}.id" and "/" in lits and pieces[0][0] == "expr":
+            prefixed = True
+            sfx = exprs[1]
+        elif len(exprs) == 1 and not lits:
+            root_branch = True
+            sfx = exprs[0]
+        st_s = canon(sfx, defs) if sfx is not None else None
+        if st_s not in want_sfx:
+            suffix_ok = False
+            definite = st_s is not None and (re.fullmatch(r"len\(.*\)|\d+|.*\.(metaepoch_count|level)", st_s) is not None)
+            if not definite:
+                unknown_shape = True
+            obs.append(ctx.ob("R07.2", f, r, status=VIOLATION if definite else INCONCLUSIVE, detail=f"child id `{norm(v)[:80]}` is not built from the size of the target level (ids on a level could repeat)" if definite else f"cannot tell whether the suffix of `{norm(v)[:80]}` is the size of the target level"))
     if suffix_ok:
         obs.append(ctx.ob("R07.2", f, f.node, detail="id suffix = len(levels[parent.level + 1])", construct="suffix"))
-    obs.append(ctx.ob("R07.2", f, f.node, status=OK if (root_branch and prefixed) else VIOLATION, detail="root children get the bare suffix, deeper demes `<parent id>/<suffix>`" if (root_branch and prefixed) else "non-root ids are no longer prefixed with the parent's id (or the root case is missing)", construct="prefix"))
+    obs.append(ctx.ob("R07.2", f, f.node, status=OK if (root_branch and prefixed) else INCONCLUSIVE if unknown_shape else VIOLATION, detail="root children get the bare suffix, deeper demes `<parent id>/<suffix>`" if (root_branch and prefixed) else "non-root ids are no longer prefixed with the parent's id (or the root case is missing)", construct="prefix"))
     # root test
     tests = [n.test for n in body_walk(f.node) if isinstance(n, ast.If)] + ([root_test_ifexp] if root_test_ifexp is not None else [])
     ok_root = any(norm(t).replace('"', "'") == f"{d}.id == 'root'" for t in tests)
@@ -588,7 +643,19 @@ def _seed_expr(init, defs):
 
 
 def _specialise(stmts, defs, seedx, seeded: bool):
-    """The statements executed when the seed is / is not None: branches on the seed test are resolved, everything else kept."""
+    """The statements executed when the seed is / is not None: branches (statements and conditional expressions) on the
+    seed test are resolved, everything else kept."""
+    import copy
+
+    class _Arms(ast.NodeTransformer):
+        def visit_IfExp(self, node):
+            self.generic_visit(node)
+            if cond_is(node.test, f"{seedx} is None", defs):
+                return node.orelse if seeded else node.body
+            if cond_is(node.test, f"{seedx} is not None", defs) or cond_is(node.test, seedx, defs):
+                return node.body if seeded else node.orelse
+            return node
+
     out = []
     for s in stmts:
         if isinstance(s, ast.If):
@@ -598,6 +665,11 @@ def _specialise(stmts, defs, seedx, seeded: bool):
             if cond_is(s.test, f"{seedx} is not None", defs) or cond_is(s.test, seedx, defs):
                 out.extend(_specialise(s.body if seeded else s.orelse, defs, seedx, seeded))
                 continue
+        if any(isinstance(x, ast.IfExp) for x in ast.walk(s)) and not isinstance(s, (ast.If, ast.For, ast.While, ast.With, ast.Try, ast.FunctionDef)):
+            s2 = _Arms().visit(copy.deepcopy(s))
+            ast.fix_missing_locations(s2)
+            out.append(s2)
+            continue
         out.append(s)
     return out
 
@@ -668,14 +740,42 @@ def r07_8(ctx: Ctx):
         st, t = size_status(s_calls, True, res_s, alld)
         obs.append(ctx.ob("R07.8", init, s_calls[0] if s_calls else br, status=st, detail=f"{ci.name}: seeded population samples pop_size - 1 individuals" if st == OK else f"{ci.name}: the seeded population samples `{t}` individuals (pop_size - 1 expected)", construct=f"{ci.name}:seeded-size"))
         # the seed individual
-        pop_names = [tt.id for s in seeded for n in ast.walk(s) if isinstance(n, ast.Assign) and s_calls and n.value is s_calls[0] for tt in n.targets if isinstance(tt, ast.Name)]
+        def _concat_terms(e):
+            """terms of a `+` chain"""
+            if isinstance(e, ast.BinOp) and isinstance(e.op, ast.Add):
+                return _concat_terms(e.left) + _concat_terms(e.right)
+            return [e]
+
+        pop_names = []
+        joined = []  # (expression that joins the sampled population, statement)
+        for s_ in seeded:
+            for n in ast.walk(s_):
+                if isinstance(n, ast.Assign) and s_calls and len(n.targets) == 1 and isinstance(n.targets[0], ast.Name):
+                    terms = _concat_terms(n.value)
+                    if any(t is s_calls[0] for t in terms) and all(t is s_calls[0] or isinstance(t, ast.List) for t in terms):
+                        pop_names.append(n.targets[0].id)
+                        joined += [(el, s_ if n is s_ else None) for t in terms if isinstance(t, ast.List) for el in t.elts]
+        for s_ in seeded:
+            for n in ast.walk(s_):
+                if not pop_names:
+                    break
+                if isinstance(n, ast.AugAssign) and isinstance(n.op, ast.Add) and norm(n.target) == pop_names[0] and isinstance(n.value, ast.List):
+                    joined += [(el, s_ if n is s_ else None) for el in n.value.elts]
+                elif isinstance(n, ast.Assign) and len(n.targets) == 1 and norm(n.targets[0]) == pop_names[0] and isinstance(n.value, ast.BinOp):
+                    terms = _concat_terms(n.value)
+                    if any(norm(t) == pop_names[0] for t in terms) and all(norm(t) == pop_names[0] or isinstance(t, ast.List) for t in terms):
+                        joined += [(el, s_ if n is s_ else None) for t in terms if isinstance(t, ast.List) for el in t.elts]
+                elif isinstance(n, ast.Call) and isinstance(n.func, ast.Attribute) and norm(n.func.value) == pop_names[0] and n.func.attr == "extend" and len(n.args) == 1 and isinstance(n.args[0], ast.List):
+                    joined += [(el, s_ if isinstance(s_, ast.Expr) and s_.value is n else None) for el in n.args[0].elts]
+                elif isinstance(n, ast.Call) and isinstance(n.func, ast.Attribute) and norm(n.func.value) == pop_names[0] and n.func.attr == "insert" and len(n.args) == 2:
+                    joined.append((n.args[1], s_ if isinstance(s_, ast.Expr) and s_.value is n else None))
         appends = [c for s in seeded for c in ast.walk(s) if isinstance(c, ast.Call) and isinstance(c.func, ast.Attribute) and c.func.attr == "append" and pop_names and norm(c.func.value) == pop_names[0]]
         st_app = VIOLATION
         why = "the seed is not appended to the sampled population"
         if not pop_names:
             st_app, why = INCONCLUSIVE, "cannot follow the sampled population to the place where the seed joins it"
-        elif len(appends) == 1 and appends[0].args:
-            a = appends[0].args[0]
+        elif (len(appends) == 1 and appends[0].args and not joined) or (len(joined) == 1 and not appends):
+            a = appends[0].args[0] if appends else joined[0][0]
             r = res_s(a)
 
             def seed_ind_status(r):
@@ -701,7 +801,7 @@ def r07_8(ctx: Ctx):
 
             st_app, w2 = seed_ind_status(r)
             why = w2 or why
-        elif len(appends) > 1:
+        elif len(appends) + len(joined) > 1:
             st_app, why = INCONCLUSIVE, "several appends to the seeded population"
         else:
             # other ways of joining the seed (concatenation, insert, list literal): not recognised
@@ -710,7 +810,7 @@ def r07_8(ctx: Ctx):
             if others:
                 st_app, why = INCONCLUSIVE, f"the seed seems to join the population through `{norm(others[0])[:60]}` (unrecognised form)"
         # the append must be unconditional within the seeded branch
-        cond_app = appends and not any(isinstance(s, ast.Expr) and s.value is appends[0] for s in seeded)
+        cond_app = (appends and not any(isinstance(s, ast.Expr) and s.value is appends[0] for s in seeded)) or (joined and not appends and joined[0][1] is None)
         if st_app == OK and cond_app:
             st_app, why = VIOLATION, "the seed is appended only conditionally"
         obs.append(ctx.ob("R07.8", init, appends[0] if appends else br, status=st_app, detail=f"{ci.name}: the initial population contains the sprout seed" if st_app == OK else f"{ci.name}: {why}", construct=f"{ci.name}:seed-appended"))
